@@ -472,6 +472,7 @@ func init() {
 		h + "Tier": func(fr *frame, args []value) value { return fr.i.cx.cfg.Tier },
 		h + "Seed": func(fr *frame, args []value) value { return fr.i.cx.cfg.Seed },
 		h + "Symbolic": func(fr *frame, args []value) value { return true },
+		h + "OnReset":  func(fr *frame, args []value) value { return nil },
 		h + "Nondet": func(fr *frame, args []value) value {
 			cx := fr.i.cx
 			t := cx.freshVar(hname(args), 64)
